@@ -9,6 +9,8 @@ import (
 	"testing"
 	"time"
 
+	"github.com/jwhited/corebgp"
+
 	"verif/internal/hz"
 	"verif/internal/rt"
 	"verif/internal/wire"
@@ -40,8 +42,9 @@ var (
 	// OpenConfirm; -fsm: a second OPEN in Established; -again: held down, quiet for more
 	// than 300 s, then a second protocol error; -7: NOTIFICATION with a code above Cease;
 	// -long: a second protocol error right after the first hold-down, probed 61 s later
-	// (the second hold-down lasts 120 s)
-	c13States = []string{"idle", "in-opensent", "in-openconfirm", "est-in", "est-out", "out-opensent", "helddown", "deleted", "helddown-hdr", "helddown-fsm", "helddown-again", "helddown-7", "helddown-long"}
+	// (the second hold-down lasts 120 s); -plug: the plugin's update handler returned a
+	// NOTIFICATION
+	c13States = []string{"idle", "in-opensent", "in-openconfirm", "est-in", "est-out", "out-opensent", "helddown", "deleted", "helddown-hdr", "helddown-fsm", "helddown-again", "helddown-7", "helddown-long", "helddown-plug"}
 )
 
 // admit is the reference predicate (DESIGN.md Appendix A.7).
@@ -95,6 +98,12 @@ func c13World(t *testing.T, p c13Params) rt.Result {
 			ps.Passive = pp.Passive
 			if pp.Local != "" {
 				ps.LocalAddress = netip.MustParseAddr(pp.Local)
+			}
+			ps.Cfg.OnUpdate = func(_ *hz.Session, _ int, body []byte) *corebgp.Notification {
+				if len(body) == 4 && body[0] == 0xEE { // the UPDATE the plugin refuses
+					return &corebgp.Notification{Code: 3, Subcode: 1}
+				}
+				return nil
 			}
 			return ps
 		}
@@ -181,7 +190,7 @@ func c13World(t *testing.T, p c13Params) rt.Result {
 			mons[pp.Addr] = mon
 			dst := localFor(pp)
 			switch pp.State {
-			case "in-opensent", "in-openconfirm", "est-in", "helddown", "helddown-hdr", "helddown-fsm", "helddown-7":
+			case "in-opensent", "in-openconfirm", "est-in", "helddown", "helddown-hdr", "helddown-fsm", "helddown-7", "helddown-plug":
 				rc := w.ConnectTo(ps.Addr, dst)
 				w.Settle()
 				if len(rc.Msgs()) != 1 {
@@ -191,6 +200,13 @@ func c13World(t *testing.T, p c13Params) rt.Result {
 				switch pp.State {
 				case "helddown-7":
 					rc.SendNotification(7, 1, nil)
+					w.Settle()
+				case "helddown-plug":
+					rc.SendOpen(rc.StdOpen(ps.RemoteAS, 90, remoteIDu))
+					w.Settle()
+					rc.SendKeepalive()
+					w.Settle()
+					rc.SendUpdate([]byte{0xEE, 0, 0, 0})
 					w.Settle()
 				case "helddown-hdr":
 					rc.SendOpen(rc.StdOpen(ps.RemoteAS, 90, remoteIDu))
